@@ -96,7 +96,7 @@ random(TangentBase<_Derived>& tangent)
 template <typename _Derived>
 typename _Derived::LieGroup
 inverse(const LieGroupBase<_Derived>& lie_group,
-        typename _Derived::OpJacobianRef J_minv_m = {})
+        typename _Derived::OptJacobianRef J_minv_m = {})
 {
   return lie_group.inverse(J_minv_m);
 }
@@ -105,8 +105,8 @@ template <typename _DerivedMan, typename _DerivedTan>
 typename _DerivedMan::LieGroup
 rplus(const LieGroupBase<_DerivedMan>& lie_group,
       const TangentBase<_DerivedTan>& tangent,
-      typename _DerivedMan::OpJacobianRef J_mout_m = {},
-      typename _DerivedMan::OpJacobianRef J_mout_t = {})
+      typename _DerivedMan::OptJacobianRef J_mout_m = {},
+      typename _DerivedMan::OptJacobianRef J_mout_t = {})
 {
   return lie_group.rplus(tangent, J_mout_m, J_mout_t);
 }
@@ -115,8 +115,8 @@ template <typename _DerivedMan, typename _DerivedTan>
 typename _DerivedMan::LieGroup
 lplus(const LieGroupBase<_DerivedMan>& lie_group,
       const TangentBase<_DerivedTan>& tangent,
-      typename _DerivedMan::OpJacobianRef J_mout_m = {},
-      typename _DerivedMan::OpJacobianRef J_mout_t = {})
+      typename _DerivedMan::OptJacobianRef J_mout_m = {},
+      typename _DerivedMan::OptJacobianRef J_mout_t = {})
 {
   return lie_group.lplus(tangent, J_mout_m, J_mout_t);
 }
@@ -125,8 +125,8 @@ template <typename _DerivedMan, typename _DerivedTan>
 typename _DerivedMan::LieGroup
 plus(const LieGroupBase<_DerivedMan>& lie_group,
      const TangentBase<_DerivedTan>& tangent,
-     typename _DerivedMan::OpJacobianRef J_mout_m = {},
-     typename _DerivedMan::OpJacobianRef J_mout_t = {})
+     typename _DerivedMan::OptJacobianRef J_mout_m = {},
+     typename _DerivedMan::OptJacobianRef J_mout_t = {})
 {
   return lie_group.plus(tangent, J_mout_m, J_mout_t);
 }
